@@ -32,24 +32,26 @@ func (c11) Cases(tier string) int {
 
 func (c11) Thresholds(tier string) map[string]int64 {
 	return map[string]int64{
-		"jump-self":                                    100,
-		"jump-out-of-nested-body":                      200,
-		"jump-by-expression":                           200,
-		"jump-from-top-level":                          200,
-		"jump-leaves-untracked-node":                   200,
-		"jump-leaves-tracking-always-node":             200,
-		"path-with-count>=5":                           20,
-		"count-observations":                           20000,
-		"snapshot-comparisons":                         10000,
-		"non-node-name-observed":                       5000,
-		"restore-in-mid-run":                           500,
-		"restore-between-tracked-and-untracked-node":   100,
-		"snapshot-compared-after-failed-jump-or-error": 40,
+		"jump-self":                                         100,
+		"jump-out-of-nested-body":                           200,
+		"jump-by-expression":                                200,
+		"jump-from-top-level":                               200,
+		"jump-leaves-untracked-node":                        200,
+		"jump-leaves-tracking-always-node":                  200,
+		"path-with-count>=5":                                20,
+		"count-observations":                                20000,
+		"snapshot-comparisons":                              10000,
+		"non-node-name-observed":                            5000,
+		"restore-in-mid-run":                                500,
+		"restore-between-tracked-and-untracked-node":        100,
+		"snapshot-compared-after-failed-jump-or-error":      40,
+		"restore-of-hand-built-snapshot-with-chosen-counts": 60,
+		"restore-of-hand-built-snapshot-with-nil-counts":    60,
 	}
 }
 
 func (c11) Rule() string {
-	return "case = one generated jump-graph-heavy program (2-6 nodes, self-loops and cycles bounded by a fuel variable, jumps by name and by expression from top level, option bodies and if bodies, every node tracking: never / always / another value (sometimes, Always, Never, empty ...: counted, only exactly 'never' is not) / unmarked at random) in which every node starts with a line printing visited_count(n) and visited(n) for every node and for a name that is no node; driven along enumerated choice paths; 6% of the jumps name a node that does not exist (the failed jump must not count), and now and then an earlier snapshot of the same run is restored into the running dialogue (counts must then be the snapshot's, and the next jump must count the restored node according to ITS tracking header). Oracle: the printed values and Snapshot().VisitedNodes after every step equal the model's count of completed jump-exits; observed counts never decrease and change only in steps in which the model jumps. Non-trivial: some node is left >=2 times on the path and (a node is untracked or a jump leaves from a nested body). Distinct by hash of scripts+choices."
+	return "case = one generated jump-graph-heavy program (2-6 nodes, self-loops and cycles bounded by a fuel variable, jumps by name and by expression from top level, option bodies and if bodies, every node tracking: never / always / another value (sometimes, Always, Never, empty ...: counted, only exactly 'never' is not) / unmarked at random) in which every node starts with a line printing visited_count(n) and visited(n) for every node and for a name that is no node; driven along enumerated choice paths; 6% of the jumps name a node that does not exist (the failed jump must not count), and now and then an earlier snapshot of the same run is restored into the running dialogue (counts must then be the snapshot's, and the next jump must count the restored node according to ITS tracking header); one restore in three uses a snapshot built by hand instead (any node, the variables of the last checkpoint, visit counts of the host's choosing or a nil map). Oracle: the printed values and Snapshot().VisitedNodes after every step equal the model's count of completed jump-exits; observed counts never decrease and change only in steps in which the model jumps. Non-trivial: some node is left >=2 times on the path and (a node is untracked or a jump leaves from a nested body). Distinct by hash of scripts+choices."
 }
 
 func (c11) Assumptions() []string {
@@ -131,6 +133,29 @@ func (p c11) Run(c *core.Ctx) {
 			if len(saves) > 0 && restores < 3 && (want.Kind == model.OLine || want.Kind == model.OOptions) && c.R.Chance(1, 8) {
 				sv := saves[c.R.Intn(len(saves))]
 				from := m.Cur
+				if c.R.Chance(1, 3) {
+					// a snapshot the host built by hand (a decoded save file): the variables of the last
+					// checkpoint, any node, and visit counts of the host's choosing - or none at all (nil map)
+					node := prog.Nodes[c.R.Intn(len(prog.Nodes))].Title
+					hand := &ysgo.Snapshot{CurrentNode: node, Variables: mon.CopySnap(snap).Variables}
+					check := m.Check.Clone()
+					check.Node = node
+					check.Visits = map[string]int{}
+					if c.R.Bool() {
+						hand.VisitedNodes = map[string]int{}
+						for _, n := range prog.Nodes {
+							if c.R.Bool() {
+								k := c.R.Intn(4)
+								hand.VisitedNodes[n.Title] = k
+								check.Visits[n.Title] = k
+							}
+						}
+						c.Feature("restore-of-hand-built-snapshot-with-chosen-counts")
+					} else {
+						c.Feature("restore-of-hand-built-snapshot-with-nil-counts")
+					}
+					sv = saved{snap: hand, check: check}
+				}
 				if err := pr.pair.R.DR.RestoreAt(sv.snap); err != nil {
 					return "RestoreAt of the runner's own earlier snapshot failed: " + err.Error()
 				}
